@@ -29,10 +29,13 @@ var zzC14Alpha = [][]zzHostOp{
 	{ // 2: six literal domains + wildcard, then two domains sharing a first byte come and go (two-level pruning under the indexed root)
 		{1, []string{"fox.e"}}, {1, []string{"FIG.e"}}, {1, []string{"a1.e"}}, {1, []string{"{w}.e"}},
 	},
+	{ // 3: sibling parameter domains; the one tried first is a leaf that matches only a proper prefix of the host
+		{0, []string{"{k:\\d+}.e"}}, {0, []string{"{z}.e.f"}}, {0, []string{"{w}.e"}}, {1, []string{"{z}.E.F"}},
+	},
 }
 
 // zzC14Setup: operations applied before the explored history.
-var zzC14Setup = [][]zzHostOp{nil, nil, {{0, []string{"a1.e", "b2.e", "c3.e", "d4.e", "e5.e", "{w}.e"}}, {0, []string{"fox.e", "fig.e"}}}}
+var zzC14Setup = [][]zzHostOp{nil, nil, {{0, []string{"a1.e", "b2.e", "c3.e", "d4.e", "e5.e", "{w}.e"}}, {0, []string{"fox.e", "fig.e"}}}, nil}
 
 // ZZC14(n): n = alphabet*1000 + depth*100 + max host length.
 func ZZC14(n int) {
